@@ -26,6 +26,7 @@
    Nested stores (a variable whose content parses as a store) are modelled with
    the recursion depth bounded by the fuel. *)
 From Fiano Require Import Base.Bytes Gen.Consts.
+From Coq Require Import Sorting.Sorted.
 Open Scope Z_scope.
 
 (* ---------- golang.org/x/text UTF-16LE transformer, concretely ----------
@@ -671,3 +672,152 @@ Definition interp (pol : Z) (s : astore) : nstore :=
           (zlen b - nvar_guid_size * k) (zlen b).
 
 End Interp.
+
+(* ---------- specification of compaction ---------- *)
+
+Definition content (v : nvar) : bytes := zskipn (v_dataoff v) (v_buf v).
+Definition is_tail (v : nvar) : bool := is_valid v && (v_nextoff v =? 0).
+Definition tails (es : list nvar) : list nvar := filter is_tail es.
+
+(* the live variables of a parsed store: one per chain end, in the order of the
+   chain ends; GUID and name are those every member of the chain carries *)
+Definition live (s : nstore) : list (bytes * bytes * bytes) :=
+  map (fun v => (v_guid v, v_name v, content v)) (tails (s_entries s)).
+
+(* (head, tail) of every chain, the head being what compactNVarStore's map holds *)
+Definition heads_tails (es : list nvar) : list (nvar * nvar) :=
+  let '(m, keep) := pass1 es [] in
+  map (fun k => (match lookup (v_off k) m with Some h => h | None => k end, k)) keep.
+
+Fixpoint gpos (g : bytes) (store : list bytes) : option Z :=
+  match store with
+  | [] => None
+  | x :: r => if bytes_eqb g x then Some 0 else
+              match gpos g r with Some i => Some (i + 1) | None => None end
+  end.
+
+(* GUID indices in first-use order, and the rebuilt table *)
+Fixpoint assign_gidx (hts : list (nvar * nvar)) (gstore : list bytes) : list (option Z) * list bytes :=
+  match hts with
+  | [] => ([], gstore)
+  | (h, _) :: r =>
+    if ATTR (v_attrs h) nvar_attr_guid then
+      let '(l, g') := assign_gidx r gstore in (None :: l, g')
+    else
+      match gpos (v_guid h) gstore with
+      | Some i => let '(l, g') := assign_gidx r gstore in (Some i :: l, g')
+      | None => let '(l, g') := assign_gidx r (gstore ++ [v_guid h]) in (Some (zlen gstore) :: l, g')
+      end
+  end.
+
+Definition erased_next (pol : Z) : Z := le_dec [pol; pol; pol].
+
+Section CompactSpec.
+Variable enc16 : bytes -> bytes.
+
+(* GUID-or-index and name bytes of a rebuilt entry *)
+Definition gpart_bytes (h : nvar) (gi : option Z) : bytes :=
+  (if ATTR (v_attrs h) nvar_attr_guid then v_guid h
+   else match gi with Some i => [i] | None => [] end) ++
+  (if ATTR (v_attrs h) nvar_attr_ascii then v_name h ++ [0] else utf8_to_ucs2 enc16 (v_name h)).
+
+Definition rebuilt_size (h k : nvar) (gi : option Z) : Z :=
+  nvar_header_size + zlen (gpart_bytes h gi) + zlen (content k).
+
+(* the entry compaction leaves for the chain (h .. k) at [offset] *)
+Definition final_entry (pol : Z) (h k : nvar) (gi : option Z) (offset : Z) : nvar :=
+  let gp := gpart_bytes h gi in
+  let size := rebuilt_size h k gi in
+  mkNVar size (erased_next pol) (v_attrs h) (v_guid h) gi (v_name h) nvar_type_full offset 0
+         (emit_header size (erased_next pol) (v_attrs h) ++ gp ++ content k)
+         (nvar_header_size + zlen gp) no_ext None.
+
+Fixpoint final_entries (pol : Z) (hts : list (nvar * nvar)) (gis : list (option Z)) (offset : Z) : list nvar :=
+  match hts, gis with
+  | (h, k) :: r, gi :: gr =>
+    final_entry pol h k gi offset :: final_entries pol r gr (offset + rebuilt_size h k gi)
+  | _, _ => []
+  end.
+
+(* what nvram-compact turns a parsed store into *)
+Definition compacted (pol : Z) (s : nstore) : nstore :=
+  let hts := heads_tails (s_entries s) in
+  let '(gis, table) := assign_gidx hts [] in
+  let es := final_entries pol hts gis 0 in
+  let data := concat (map v_buf es) in
+  let goff := s_len s - nvar_guid_size * zlen table in
+  mkStore es table (data ++ zrepeat pol (goff - zlen data) ++ concat (rev table))
+          (zlen data) goff (s_len s).
+
+(* ---- side conditions of the compaction theorems (each needed: see the
+   refuted witnesses in Properties/C10.v) ---- *)
+
+(* link structure of the parsed entries *)
+Record chains_ok (es : list nvar) : Prop := mkChainsOk {
+  co_sorted : StronglySorted (fun a b => v_off a < v_off b) es;
+  co_forward : forall l, In l es -> is_valid l = true -> v_nextoff l <> 0 -> v_off l < v_nextoff l;
+  co_link : forall l v, In l es -> In v es -> is_valid l = true -> is_valid v = true ->
+            v_nextoff l <> 0 -> v_nextoff l = v_off v ->
+            v_guid l = v_guid v /\ v_name l = v_name v;
+  co_heads : forall v, In v es -> is_valid v = true ->
+             (forall l, In l es -> is_valid l = true -> v_nextoff l <> 0 -> v_nextoff l <> v_off v) ->
+             ATTR (v_attrs v) nvar_attr_dataonly = false;
+  co_plain : forall v, In v es ->
+             v_sub v = None /\ 0 <= v_dataoff v <= zlen (v_buf v) /\ zlen (v_guid v) = nvar_guid_size
+}.
+
+Definition compact_fits (pol : Z) (s : nstore) : Prop :=
+  let hts := heads_tails (s_entries s) in
+  let '(gis, table) := assign_gidx hts [] in
+  (pol = 0 \/ pol = 255) /\
+  Forall2 (fun ht gi => rebuilt_size (fst ht) (snd ht) gi < 2 ^ 16) hts gis /\
+  zlen table <= 255 /\
+  sum_list (map v_size (final_entries pol hts gis 0)) + nvar_guid_size * zlen table <= s_len s /\
+  s_len s < 2 ^ 47.
+
+End CompactSpec.
+
+(* ---------- the compacted store as an abstract store (for the re-parse) ---------- *)
+Section CompactAbs.
+Variables dec16 enc16 : bytes -> bytes.
+
+Definition ucs2_of_name (name : bytes) : bytes := removelast (removelast (enc16 (name ++ [0]))).
+Definition aname_of (h : nvar) : aname :=
+  if ATTR (v_attrs h) nvar_attr_ascii then NAscii (v_name h) else NUcs2 (ucs2_of_name (v_name h)).
+Definition gref_of (h : nvar) (gi : option Z) : agref :=
+  if ATTR (v_attrs h) nvar_attr_guid then GInline (v_guid h)
+  else GIndex (match gi with Some i => i | None => 0 end).
+Definition aentry_of (pol : Z) (h k : nvar) (gi : option Z) : aentry :=
+  AFull (v_attrs h) (erased_next pol) (gref_of h gi) (aname_of h) (content k).
+
+Fixpoint aentries_of (pol : Z) (hts : list (nvar * nvar)) (gis : list (option Z)) : list aentry :=
+  match hts, gis with
+  | (h, k) :: r, gi :: gr => aentry_of pol h k gi :: aentries_of pol r gr
+  | _, _ => []
+  end.
+
+Definition acompacted (pol : Z) (s : nstore) : astore :=
+  let hts := heads_tails (s_entries s) in
+  let '(gis, table) := assign_gidx hts [] in
+  let es := aentries_of pol hts gis in
+  mkAStore es (s_len s - zlen (emit_entries es) - nvar_guid_size * zlen table) table.
+
+(* a name the re-parse reads back unchanged *)
+Definition name_ok (h : nvar) : Prop :=
+  if ATTR (v_attrs h) nvar_attr_ascii then nonzero_bytes (v_name h) = true
+  else exists u, bmp_ok u = true /\ v_name h = dec16 u.
+
+(* what the re-parse of the compacted store needs of every (head, tail, index):
+   attribute byte with the valid bit, a re-readable name, byte-valued content
+   that is not itself a store, and a rebuilt entry whose extended header (head's
+   attribute bits, tail's bytes) is valid *)
+Definition reparse_ok (pol : Z) (s : nstore) : Prop :=
+  let hts := heads_tails (s_entries s) in
+  let '(gis, table) := assign_gidx hts [] in
+  Forall2 (fun ht gi =>
+             let h := fst ht in let k := snd ht in
+             0 <= v_attrs h < 256 /\ ATTR (v_attrs h) nvar_attr_valid = true /\ name_ok h /\
+             bytes_ok (content k) = true /\ no_nested (content k) = true /\
+             bytes_ok (v_guid h) = true /\ ext_ok (aentry_of pol h k gi) = true) hts gis.
+
+End CompactAbs.
